@@ -68,7 +68,8 @@ where
     // for now, write this as a type alias; we may want to change this to a newtype
     // in the future
     if let Some(comment) = comment {
-        for line in comment.split('\n') {
+        // a carriage return ends a line too (and is not allowed inside a doc comment)
+        for line in comment.split(['\n', '\r']) {
             writeln!(writer, "/// {line}")?;
         }
     }
@@ -140,7 +141,8 @@ where
     let rust_name = xml_name_to_rust_name(xml_name);
 
     if let Some(comment) = comment {
-        for line in comment.split('\n') {
+        // a carriage return ends a line too (and is not allowed inside a doc comment)
+        for line in comment.split(['\n', '\r']) {
             writeln!(writer, "/// {line}")?;
         }
     }
